@@ -96,13 +96,13 @@ func (e *kvElection) handleValidationFailure(err error) {
 		)...,
 	)
 
-	e.becomeFollower()
+	wasLeader := e.becomeFollower()
 
 	e.mu.RLock()
 	onDemote := e.onDemote
 	e.mu.RUnlock()
 
-	if onDemote != nil {
+	if wasLeader && onDemote != nil {
 		log.Info("leader_demoted",
 			append(e.logWithContext(e.ctx),
 				zap.String("reason", "token_validation_failure"),
